@@ -142,6 +142,7 @@ type Machine struct {
 	knownW       map[string]*Violation
 	onPending    func([]Dec)
 	inIntrinsic  *ssa.Function
+	decided      map[*sym.Term]bool
 	lastRun      *Run
 	mapOrderRev  bool
 	idN          int
@@ -205,15 +206,12 @@ func (m *Machine) feasible(t *sym.Term) bool {
 		m.CacheHits++
 		return true
 	}
-	m.S.Push()
-	m.S.Assert(t)
-	r := m.S.Check()
+	r := m.S.CheckAssuming(t)
 	if r == smt.Sat {
 		if mod, err := m.S.Model(m.C.Vars); err == nil {
 			m.candModel, m.candTerm = mod, t
 		}
 	}
-	m.S.Pop()
 	if r == smt.Unknown {
 		m.inconclusive = append(m.inconclusive, "solver unknown on feasibility query: "+m.S.LastErr)
 		if m.S.Dead() {
@@ -231,6 +229,9 @@ func (m *Machine) Decide(cond *sym.Term) bool {
 	}
 	if cond.IsFalse() {
 		return false
+	}
+	if v, ok := m.decided[cond]; ok {
+		return v
 	}
 	idx := len(m.decisions)
 	var val bool
@@ -250,6 +251,8 @@ func (m *Machine) Decide(cond *sym.Term) bool {
 			val = false
 		}
 	}
+	m.decided[cond] = val
+	m.decided[m.C.Not(cond)] = !val
 	if val {
 		m.decisions = append(m.decisions, Dec{V: 1})
 		m.assertPC(cond)
